@@ -22,6 +22,8 @@ import (
 	"syscall"
 	"time"
 
+	"github.com/sirupsen/logrus"
+
 	"simrt"
 )
 
@@ -1012,6 +1014,11 @@ func tail(s string, n int) string {
 // Entry (called from TestEntry)
 
 func Entry() int {
+	if os.Getenv("VERIF_PRODLOG") == "" {
+		// the product's own log lines (info level, one per snapshot ...) would push the head of
+		// a crash out of what the parent keeps of a worker's stderr
+		logrus.SetOutput(io.Discard)
+	}
 	role := os.Getenv("VERIF_ROLE")
 	id := os.Getenv("VERIF_CHECK")
 	tier := os.Getenv("VERIF_TIER")
